@@ -66,7 +66,7 @@ def classify(msg, code):
 
 def run(path, extra=None, timeout=1800, rlimit=None, threads=8):
     cmd = [VERUS, path, '--output-json', '--time', '--multiple-errors', '50', '--triggers-mode', 'silent',
-           '--num-threads', str(threads)]
+           '--num-threads', str(threads), '--rlimit', '60']
     if rlimit:
         cmd += ['--rlimit', str(rlimit)]
     if extra:
